@@ -421,13 +421,29 @@ Proof.
   rewrite Forall_forall in H. apply H, Hx.
 Qed.
 
-Theorem tokenize_lines_write : forall contents : list text,
-  Forall (fun l => ends_with_char 45%N l = false) contents ->
-  tokenize_lines (flat_map v30_line contents) = ok (map (fun l => tokenize (prefix ++ l)) contents).
+(* the reader leaves the first four lines (three header lines and the version line) alone and
+   runs the splice loop on the rest, with fuel [length lines] (four more than needed) *)
+Lemma tokenize_lines_block : forall (hdr A A' : list text),
+  length hdr = 4 -> cd_block A A' ->
+  tokenize_lines (hdr ++ A) = ok (map tokenize (hdr ++ A')).
 Proof.
-  intros contents H. unfold tokenize_lines.
-  rewrite (cd_block_run _ _ (length (flat_map v30_line contents)) (concat_dash_write contents H)) by lia.
-  cbn. rewrite map_map. reflexivity.
+  intros hdr A A' Hh HA. unfold tokenize_lines.
+  assert (F : firstn 4 (hdr ++ A) = hdr).
+  { rewrite <- Hh, firstn_app, Nat.sub_diag, firstn_all. cbn [firstn]. apply app_nil_r. }
+  rewrite F, (skipn_app_exact hdr A 4 Hh).
+  rewrite (cd_block_run A A' (length (hdr ++ A)) HA) by (rewrite app_length; lia).
+  reflexivity.
+Qed.
+
+Theorem tokenize_lines_write : forall (hdr contents : list text),
+  length hdr = 4 ->
+  Forall (fun l => ends_with_char 45%N l = false) contents ->
+  tokenize_lines (hdr ++ flat_map v30_line contents)
+  = ok (map tokenize hdr ++ map (fun l => tokenize (prefix ++ l)) contents).
+Proof.
+  intros hdr contents Hh H.
+  rewrite (tokenize_lines_block hdr _ _ Hh (concat_dash_write contents H)).
+  rewrite map_app, map_map. reflexivity.
 Qed.
 
 (* ------------------------------------------------------------------------------------ *)
@@ -868,17 +884,39 @@ Proof.
   apply cd_block_plain. vm_compute. reflexivity.
 Qed.
 
-Theorem concat_dash_write_lines : forall line2 m fuel,
+(* the splice loop on the whole list, header included (what the reader did before it skipped
+   the header): needs the second header line not to look like a continued V30 line *)
+Theorem concat_dash_write_lines_whole : forall line2 m fuel,
   continues line2 = false -> length (write_lines line2 m) <= fuel ->
   concat_dash fuel (write_lines line2 m) = ok (logical_lines line2 m).
 Proof. intros line2 m fuel H Hf. apply cd_block_run; [apply write_lines_block, H|exact Hf]. Qed.
 
+(* what the reader does: the four header lines are set aside, whatever they contain *)
+Lemma write_body_block : forall m,
+  cd_block (flat_map v30_line (v30_contents m) ++ [t "M  END"])
+           (map (app prefix) (v30_contents m) ++ [t "M  END"]).
+Proof.
+  intro m. apply cd_block_app; [apply concat_dash_write, v30_contents_no_dash|].
+  apply cd_block_plain. vm_compute. reflexivity.
+Qed.
+
+Lemma header_length4 : forall line2, length (header line2) = 4.
+Proof. reflexivity. Qed.
+
+Theorem concat_dash_write_lines : forall line2 m fuel,
+  length (skipn 4 (write_lines line2 m)) <= fuel ->
+  concat_dash fuel (skipn 4 (write_lines line2 m)) = ok (skipn 4 (logical_lines line2 m)).
+Proof.
+  intros line2 m fuel. rewrite write_lines_contents. unfold logical_lines.
+  rewrite !(skipn_app_exact (header line2) _ 4 (header_length4 line2)).
+  intro Hf. apply cd_block_run; [apply write_body_block|exact Hf].
+Qed.
+
 Theorem tokenize_lines_write_lines : forall line2 m,
-  continues line2 = false ->
   tokenize_lines (write_lines line2 m) = ok (map tokenize (logical_lines line2 m)).
 Proof.
-  intros line2 m H. unfold tokenize_lines. rewrite concat_dash_write_lines by (try exact H; lia).
-  reflexivity.
+  intros line2 m. rewrite write_lines_contents. unfold logical_lines.
+  apply tokenize_lines_block; [apply header_length4|apply write_body_block].
 Qed.
 
 (* ------------------------------------------------------------------------------------ *)
@@ -1502,11 +1540,11 @@ Lemma pair_of_N_inj : FinFun.Injective (fun p : N * N => (Z.of_N (fst p), Z.of_N
 Proof. intros [a b] [c d] H. cbn [fst snd] in H. injection H as H1 H2. apply N2Z.inj in H1, H2. subst. reflexivity. Qed.
 
 Theorem write_read_roundtrip : forall line2 m,
-  continues line2 = false -> mol_ok m ->
+  mol_ok m ->
   read_v3000 (write_lines line2 m) = ok (map expected_atom (atoms m), map expected_bond (bonds m)).
 Proof.
-  intros line2 m Hl2 [Hatoms Hlabels Hbonds Hends].
-  unfold read_v3000. rewrite (tokenize_lines_write_lines line2 m Hl2). cbn [bind ok].
+  intros line2 m [Hatoms Hlabels Hbonds Hends].
+  unfold read_v3000. rewrite (tokenize_lines_write_lines line2 m). cbn [bind ok].
   rewrite (token_lines_shape line2 m Hatoms).
   set (pre := [tokenize []; tokenize line2; tokenize []; tokenize (t "  0  0  0     0  0            999 V3000");
                T "BEGIN CTAB"; counts_tokens m; T "BEGIN ATOM"]).
@@ -1762,17 +1800,17 @@ Qed.
 
 (* the reader entry point on the written text: version dispatch, V3000 reader, then the graph *)
 Theorem read_molfile_write_molfile : forall line2 m,
-  nolb line2 -> continues line2 = false -> mol_ok m ->
+  nolb line2 -> mol_ok m ->
   V2000.read_molfile (write_molfile line2 m)
   = graph_from_molecule (map expected_atom (atoms m)) (map expected_bond (bonds m)).
 Proof.
-  intros line2 m H2 Hc Hm. unfold V2000.read_molfile.
+  intros line2 m H2 Hm. unfold V2000.read_molfile.
   rewrite (splitlines_write_molfile line2 m H2 (mo_atoms _ Hm)). cbv zeta.
   change (nth_tok 3 (write_lines line2 m)) with (ok (t "  0  0  0     0  0            999 V3000")).
   cbn [bind ok].
   replace (text_eqb (V2000.last_text (split_on (is_code 32%N) (rstrip (t "  0  0  0     0  0            999 V3000"))))
                     (t "V3000")) with true by (vm_compute; reflexivity).
-  rewrite (write_read_roundtrip line2 m Hc Hm). reflexivity.
+  rewrite (write_read_roundtrip line2 m Hm). reflexivity.
 Qed.
 
 (* ------------------------------------------------------------------------------------ *)
@@ -1812,7 +1850,7 @@ Proof. vm_compute. reflexivity. Qed.
 
 Example ex_mol_roundtrip :
   read_v3000 (write_lines ex_hdr ex_mol) = ok (map expected_atom (atoms ex_mol), map expected_bond (bonds ex_mol)).
-Proof. apply write_read_roundtrip; [vm_compute; reflexivity|exact ex_mol_ok]. Qed.
+Proof. apply write_read_roundtrip. exact ex_mol_ok. Qed.
 
 (* charge 20 is not written, mass 0 and radical 7 neither: the read-back molecule carries None there *)
 Example ex_mol_dropped :
